@@ -135,6 +135,7 @@ func (srv *Server) WithTerminateHook(hook TerminateHook) *Server {
 func (srv *Server) Serve() error {
 	srv.logger.Info("Running KMIP server", "bind", srv.listener.Addr())
 	for {
+		vp("serve.accept", srv)
 		conn, err := srv.listener.Accept()
 		if err != nil {
 			if errors.Is(err, net.ErrClosed) {
@@ -143,6 +144,7 @@ func (srv *Server) Serve() error {
 			//TODO: Return a shutdown error if shutdown has been requested
 			return err
 		}
+		vp("serve.accepted", conn)
 		srv.wg.Add(1)
 		go srv.handleConn(conn)
 	}
@@ -159,23 +161,31 @@ func (srv *Server) Serve() error {
 func (srv *Server) Shutdown() error {
 	srv.logger.Warn("Shutting down")
 	// 1. Close listener to prevent new incoming conections
+	vp("sd.close", srv)
 	err := srv.listener.Close()
 	// 2. Cancel recvCtx to stop receiving new requests
+	vp("sd.recvcancel", srv)
 	srv.recvCancel()
 	// 3. Set a timeout to force server context cancellation after 3 seconds.
 	tm := time.AfterFunc(3*time.Second, func() {
+		vp("sd.timer", srv)
 		srv.cancel()
 	})
 	// 4. Wait for running requests completion
+	vp("sd.wait", srv)
 	srv.wg.Wait()
 	tm.Stop()
 	// 5. Cancel server root context
+	vp("sd.cancel", srv)
 	srv.cancel()
+	vp("sd.return", srv)
 	return err
 }
 
 func (srv *Server) handleConn(conn net.Conn) {
+	defer vp("hc.exit", conn)
 	defer srv.wg.Done()
+	vp("hc.start", conn)
 	logger := srv.logger.With("addr", conn.RemoteAddr())
 	logger.Info("New connection")
 	var tlsState *tls.ConnectionState
@@ -189,6 +199,7 @@ func (srv *Server) handleConn(conn net.Conn) {
 		*tlsState = tcon.ConnectionState()
 	}
 	stream := newConn(conn, srv.ctx, logger)
+	vp("hc.newconn", stream)
 	// TODO: Save ref in server
 	// TODO: Remove ref on connection termination
 	defer stream.Close()
@@ -229,6 +240,7 @@ func (srv *Server) handleConn(conn net.Conn) {
 		// 	}
 		// }()
 		resp := srv.handleRequest(ctx, msg)
+		vp("hc.ctxcheck", stream)
 		if ctx.Err() != nil {
 			logger.Warn("Request processing aborted", "err", ctx.Err())
 			break
